@@ -139,3 +139,54 @@ def describe(case, extra=None):
     if extra:
         d.update(extra)
     return d
+
+
+# ---------------------------------------------------------------------------- insertions
+
+
+def insertable(role, var):
+    """Can this facet carry subtotal insertions addressed by integer category ids?"""
+    if role == "ca_cats":
+        return True
+    return role == "cat" and var.kind in ("cat", "cat_date", "logical")
+
+
+def library_order_facets(facets):
+    """Facets in the library's apparent-dimension order (numeric array first)."""
+    return [f for f in facets if f[0] == "numarr"] + [f for f in facets if f[0] != "numarr"]
+
+
+def attach_insertions(g, facets, transforms, which=("rows", "cols"), placement=None, **kw):
+    """Put random insertions on the rows / columns facets. Returns labels of what was done.
+
+    `transforms` (dict) is filled in place for 'transform' placement; 'view' placement sets
+    the variable's view insertions. kw is passed to gen.gen_insertions.
+    """
+    lf = library_order_facets(facets)
+    nd = len(lf)
+    targets = {}
+    if nd == 1:
+        targets["rows"] = lf[0]
+    elif nd >= 2:
+        targets["rows"], targets["cols"] = lf[nd - 2], lf[nd - 1]
+    done = []
+    for name in which:
+        if name not in targets:
+            continue
+        role, var = targets[name]
+        if not insertable(role, var):
+            continue
+        cats = var.cats if role == "ca_cats" else var.axis_cats
+        valid_ids = [c["id"] for c in cats if not c.get("missing")]
+        missing_ids = [c["id"] for c in cats if c.get("missing")]
+        if not valid_ids:
+            continue
+        pl = placement or g.pick(["view", "view", "transform", "both"])
+        key = "rows_dimension" if name == "rows" else "columns_dimension"
+        if pl in ("view", "both"):
+            var.view_insertions = gen.gen_insertions(g, valid_ids, missing_ids, **kw)
+        if pl in ("transform", "both"):
+            transforms.setdefault(key, {})["insertions"] = gen.gen_insertions(
+                g, valid_ids, missing_ids, **kw)
+        done.append("%s:%s" % (name, pl))
+    return done
